@@ -65,6 +65,8 @@ TNew ==
      ELSE IF Has(E, "big") THEN JudgeBig(kind') /\ prev' = <<>> /\ psum' = E.sum8
      ELSE prev' = E.img /\ psum' = Sum8(E.img) /\ JudgeImage(kind', ctor', <<>>, <<>>, E.img, <<>>, -1)
 
+\* some accepted operation of the history exceeds a limit of the specification
+AnyUnfit(k, c, es, rs) == \E i \in 1..Len(es) : es[i].op # "refused" /\ ~OpFits(k, c, SubSeq(es, 1, i - 1), rs, es[i])
 Refused == [op |-> "refused"]       \* placeholder keeping operation indices aligned (references are by index)
 TOp ==
   /\ E.ev = "op"
@@ -82,11 +84,19 @@ TOp ==
           \* a refusal leaves the table exactly as it was: judged like any other observed state (the placeholder adds nothing)
           /\ IF fits \/ ~E.observed \/ Has(E, "big") \/ Has(E, "ser_panic") THEN prev' = <<>> /\ psum' = -1
              ELSE JudgeImage(kind, ctor, ents', rets', E.img, prev, psum) /\ prev' = E.img /\ psum' = Sum8(E.img)
-     ELSE /\ ents' = Append(ents, E.op) /\ rets' = Append(rets, E.ret) /\ dead' = FALSE
-          /\ Judge("C18", OpFits(kind, ctor, ents, rets, E.op), F("oversize_not_refused", [z |-> 0]))
-          /\ IF ~E.observed THEN prev' = <<>> /\ psum' = -1
-             ELSE IF Has(E, "big") THEN JudgeBig(kind) /\ prev' = <<>> /\ psum' = E.sum8
-             ELSE JudgeImage(kind, ctor, ents', rets', E.img, prev, psum) /\ prev' = E.img /\ psum' = Sum8(E.img)
+     ELSE /\ ents' = Append(ents, E.op) /\ rets' = Append(rets, E.ret)
+          /\ IF E.observed /\ Has(E, "ser_panic")
+             \* the operation was accepted but the table can no longer be serialised: a refusal deferred to
+             \* serialisation.  That is how an oversize operation may legitimately be refused (C18 asks for a panic,
+             \* not for a particular moment); with every accepted operation within its limits it is a lost table.
+             \* Either way the table stays unserialisable: the rest of the program says nothing.
+             THEN /\ dead' = TRUE /\ prev' = <<>> /\ psum' = -1
+                  /\ Judge("C04", AnyUnfit(kind, ctor, ents', rets'), F("unexpected_panic_on_serialise", [z |-> 0]))
+             ELSE /\ dead' = FALSE
+                  /\ Judge("C18", ~E.observed \/ OpFits(kind, ctor, ents, rets, E.op), F("oversize_not_refused", [z |-> 0]))
+                  /\ IF ~E.observed THEN prev' = <<>> /\ psum' = -1
+                     ELSE IF Has(E, "big") THEN JudgeBig(kind) /\ prev' = <<>> /\ psum' = E.sum8
+                     ELSE JudgeImage(kind, ctor, ents', rets', E.img, prev, psum) /\ prev' = E.img /\ psum' = Sum8(E.img)
 
 \* long histories ("summary" programs): only generic observations of the image, no abstract state needed --
 \* C01 and C02 are predicates of the image alone; counts must equal the number of adds performed so far
